@@ -1283,6 +1283,15 @@ func (p *Path) ToGlobal(vrf *Vrf) *Path {
 		} else {
 			newFamily = bgp.RF_IPv6_VPN
 		}
+	case bgp.RF_FS_IPv4_UC, bgp.RF_FS_IPv6_UC:
+		// as Vrf.ToGlobalPath does for routes added through the API
+		n := nlri.(*bgp.FlowSpecNLRI)
+		if rf == bgp.RF_FS_IPv4_UC {
+			newFamily = bgp.RF_FS_IPv4_VPN
+		} else {
+			newFamily = bgp.RF_FS_IPv6_VPN
+		}
+		nlri, _ = bgp.NewFlowSpecVPN(newFamily, vrf.Rd, n.Value)
 	case bgp.RF_EVPN:
 		n := nlri.(*bgp.EVPNNLRI)
 		switch n.RouteType {
